@@ -28,6 +28,9 @@ def step (q : Q) (line : String) : Q × String :=
   | ["reset", a, b] => match a.toNat?, b.toNat? with
     | some a, some b => (init a b, "ok")
     | _, _ => (q, "bad-op")
+  | ["reset", a, b, _] => match a.toNat?, b.toNat? with   -- a third word says how blocks look (processor cases)
+    | some a, some b => (init a b, "ok")
+    | _, _ => (q, "bad-op")
   | ["reset"] => (init 1024 100000, "ok")
   | ["append", id, len, buf] => match id.toNat?, len.toNat? with
     | some id, some len =>
